@@ -426,6 +426,77 @@ def cl_circ_map(shape, a, phi, b, ref, seed):
         fails.append(('circularize:map', 'shape %r f = 1 + %r cos(t - %r) + %r cos 2t, ref_angle %r: sampling positions deviate by %.3g'
                       % (shape, a, phi, b, ref, e)))
     return fails, {'circularize:map': e / 1e-12}
+
+
+DTYPE_FUNCS = ('reproject', 'reprojectJ', 'int2D', 'int3D', 'avg2D', 'avg3D', 'angular_integration_2D',
+               'angular_integration_3D', 'average_radial_intensity_2D', 'average_radial_intensity_3D',
+               'radial_integration', 'circularize_const', 'circularize', 'circularize_image_argmax',
+               'circularize_image_lsq')
+
+
+def counts_image(shape, dtype, seed):
+    """a counts-like image (ring + background noise) whose values are integers representable in dtype"""
+    rng = np.random.default_rng(seed)
+    ny, nx = shape
+    J, I = np.meshgrid(np.arange(nx), np.arange(ny))
+    rad = np.hypot(J - nx // 2, I - ny // 2)
+    top = 200 if dtype == 'uint8' else 5000
+    base = top * np.exp(-(rad - 0.3 * min(ny, nx))**2 / (2 * (1 + 0.06 * min(ny, nx))**2)) + rng.integers(0, top // 10 + 1, size=shape)
+    return np.round(base).astype(dtype)
+
+
+def cl_dtype(func, shape, dtype, origin, dr, dt, seed):
+    """dtype independence: the result for an image stored as uint8 / uint16 / int32 / int64 / float32 equals the
+    result for its float64 copy (every such value is exactly representable in float64).  circularize with a
+    non-constant correction and circularize_image return the dtype of the input (scipy), so for them only
+    floating-point dtypes are compared (float32: to single precision); integer dtypes are compared for the
+    constant-correction case, where the samples are the pixel values themselves."""
+    IM = counts_image(shape, dtype, seed)
+    org = None if origin is None else tuple(origin)
+    kw = dict(origin=org, dr=dr, dt=dt)
+    tol = 1e-12
+    if func in ('reproject', 'reprojectJ'):
+        f = lambda X: _P.reproject_image_into_polar(X, Jacobian=(func == 'reprojectJ'), **kw)
+    elif func in ('int2D', 'int3D', 'avg2D', 'avg3D'):
+        f = lambda X: _V.radial_intensity(func, X, **kw)
+    elif func in ('angular_integration_2D', 'angular_integration_3D', 'average_radial_intensity_2D',
+                  'average_radial_intensity_3D'):
+        f = lambda X: getattr(_V, func)(X, **kw)
+    elif func == 'radial_integration':
+        rmax = max(2, min(shape) // 2 - 1)
+        f = lambda X: _V.radial_integration(X, [(1, rmax), (rmax // 2, rmax)])
+    elif func == 'circularize_const':
+        f = lambda X: _C.circularize(X, lambda th: 1.25 + 0 * th)
+    elif func == 'circularize':
+        f = lambda X: _C.circularize(X, lambda th: 1 + 0.05 * np.cos(th))
+        tol = 1e-5 if dtype == 'float32' else 1e-12
+    else:
+        f = lambda X: _C.circularize_image(X, method=func.rsplit('_', 1)[1], dr=0.5, dt=0.5)
+        tol = 1e-5 if dtype == 'float32' else 1e-12
+    ref = f(IM.astype(np.float64))
+    out = f(IM)
+    flat = lambda x: [np.asarray(a) for a in (x if isinstance(x, (tuple, list)) else (x,))]
+    fails, worst = [], 0.0
+    A, B = flat(out), flat(ref)
+    if len(A) != len(B):
+        return [('dtype:' + func, 'dtype %s: different number of results' % dtype)], {}
+    for k, (a, b) in enumerate(zip(A, B)):
+        if a.shape != b.shape:
+            fails.append(('dtype:' + func, 'shape %r dtype %s origin %r: result %d has shape %r, %r for the float64 copy'
+                          % (shape, dtype, origin, k, a.shape, b.shape)))
+            continue
+        if a.size == 0:
+            continue
+        if func.startswith('circularize') and func != 'circularize_const':
+            ok_kind = True
+        else:
+            ok_kind = func.startswith('circularize') or a.dtype.kind == 'f'
+        e = float(np.abs(a.astype(float) - b.astype(float)).max() / max(float(np.abs(b).max()), 1e-300))
+        worst = max(worst, e)
+        if not (e <= tol and ok_kind):
+            fails.append(('dtype:' + func, 'shape %r dtype %s origin %r dr %r dt %r: result %d (dtype %s) differs from the result for the '
+                          'float64 copy of the same image by %.3g (relative)' % (shape, dtype, origin, dr, dt, k, a.dtype, e)))
+    return fails, {'dtype:' + func: worst / tol}
 '''
 
 ORA = {}
@@ -580,6 +651,24 @@ def search(ctx, rng, mult):
         c = min(float(rng.uniform(0.35, 0.6)) * rin, rin - 6.5 * s)
         S.run('circ_image', (n, ['argmax', 'lsq'][it % 2], it % 4 < 2), n=n, c=round(c, 3), s=round(s, 3),
               method=['argmax', 'lsq'][it % 2], ref=None if it % 4 < 2 else round(float(rng.uniform(-3, 3)), 3))
+    # dtype independence: every public function of the property on integer and single-precision images
+    FUNCS = ORA['DTYPE_FUNCS']
+    DTYPES = ['uint8', 'uint16', 'int32', 'int64', 'float32', 'float64']
+    k = 0
+    for it in range((2 if q else 8) * mult):
+        for func in FUNCS:
+            for dtype in DTYPES:
+                if func in ('circularize', 'circularize_image_argmax', 'circularize_image_lsq') and dtype[0] != 'f':
+                    continue            # scipy returns the input dtype there: outside the property (see the oracle)
+                k += 1
+                slow = func.startswith('circularize_image')
+                if slow and (k + it) % 3:
+                    continue
+                sh = (int(rng.integers(31, 50)), int(rng.integers(31, 50))) if slow else \
+                    (int(rng.integers(6, 40)), int(rng.integers(6, 40)))
+                org, oc = rand_origin(rng, sh, big=True) if not func.startswith('circ') else (None, 'none')
+                S.run('dtype', (func, dtype, oc), func=func, shape=list(sh), dtype=dtype, origin=org,
+                      dr=DRS[int(rng.integers(len(DRS)))], dt=DTS[int(rng.integers(len(DTS)))], seed=int(rng.integers(1 << 30)))
     return S
 
 
